@@ -68,6 +68,11 @@ func (r Retry) Middleware(h message.HandlerFunc) message.HandlerFunc {
 			case <-time.After(waitTime):
 				// go on
 			}
+			// With a zero wait, or once the back-off has stopped (it then returns a negative duration), both
+			// cases above are ready at once and select picks one at random: the context decides.
+			if ctx.Err() != nil {
+				return producedMessages, err
+			}
 
 			producedMessages, err = h(msg)
 			if err == nil {
